@@ -1,44 +1,797 @@
-use adblock::lists::{FilterSet, ParseOptions};
+//! C20 — content-blocking export (`FilterSet::into_content_blocking`, feature `content-blocking`).
+//!
+//! Correspondence (model = coq/theories/C20_Model.v):
+//!   * per rule:  `CbRuleEquivalent::try_from(NetworkFilter)` / `CbRule::try_from(CosmeticFilter)`
+//!     (emitted rules field by field, or the error variant, or a panic) vs `convert_network` /
+//!     `convert_cosmetic` on the parsed rule's fields;
+//!   * per list:  `FilterSet::new(true)` + `add_filters` + `into_content_blocking()` (rules in order
+//!     and `filters_used`) vs `into_content_blocking` of the model.
+//! Oracle (independent of Coq): no panic; every string ASCII; never if-domain and unless-domain;
+//! every ignore-previous-rules entry after every other entry; `filters_used` = the lines that
+//! produce output when converted alone (network lines first, then cosmetic lines, in order);
+//! url-filter accepted by a conservative Safari-subset recogniser and by the `regex` crate; for
+//! plain patterns every generated URL that `NetworkFilter::matches` accepts is matched by the
+//! emitted url-filter.
+use adblock::content_blocking::{CbLoadType, CbRule, CbRuleEquivalent, CbType};
+use adblock::filters::cosmetic::{CosmeticFilter, CosmeticFilterMask};
+use adblock::filters::network::{FilterPart, NetworkFilter, NetworkFilterMask, NetworkMatchable};
+use adblock::lists::{parse_filter, FilterSet, ParseOptions, ParsedFilter};
+use adblock::regex_manager::RegexManager;
+use adblock::request::Request;
 use implrun::*;
-fn main() {
-    let probes: Vec<Vec<&str>> = vec![
-        vec!["|ws://$~websocket"],
-        vec!["|ws://$websocket"],
-        vec!["|ws://"],
-        vec!["ads$domain=\u{200d}.com"],
-        vec!["||example.com^$document"],
-        vec!["ads$document"],
-        vec!["||*ads.com^"],
-        vec!["||ads*.com^"],
-        vec!["/ads^foo"],
-        vec!["ads$domain=a.com|~b.com"],
-        vec!["@@||x.com^$generichide", "##.ad", "example.com##.ad", "example.com#@#.ad", "~example.com##.x"],
-        vec!["a$b$domain=x.com"],
-        vec!["ads$from=a.com"],
-        vec!["ads$domain=\u{212a}.com"],
-        vec!["ads$domain=müller.de"],
-        vec!["||müller.de^"],
-        vec!["ads\tfoo"],
-        vec!["/ads/$image,script"],
-        vec!["ads$image,document"],
-        vec!["ads$image,subdocument"],
-        vec!["*$document"],
-        vec!["|http://"],
-        vec!["|http*://"],
-        vec!["ads.*", "ads+x{1}"],
-    ];
-    for p in probes {
-        let lines: Vec<String> = p.iter().map(|s| s.to_string()).collect();
-        let l2 = lines.clone();
-        let r = catch(move || {
-            let mut fs = FilterSet::new(true);
-            fs.add_filters(&l2, ParseOptions::default());
-            fs.into_content_blocking()
-        });
-        match r {
-            Err(e) => println!("{:?} => PANIC {}", lines, e),
-            Ok(Err(())) => println!("{:?} => Err", lines),
-            Ok(Ok((rules, used))) => println!("{:?} => {} used={:?}", lines, serde_json::to_string(&rules).unwrap(), used),
+use serde_json::{json, Value};
+use std::collections::{HashMap, HashSet};
+use std::convert::TryFrom;
+
+// ------------------------------------------------------------------------------- generators
+const IDN: &[&str] = &[
+    "müller.de", "пример.рф", "\u{200d}.com", "\u{212a}.com", "ÉXAMPLE.com", "a.com", "B.COM",
+    "sub.a.com", "xn--mller-kva.de", "", "/re/", "ü--.com", "example.com", "x.net", "a\u{301}.org",
+];
+const SPECIALS: &[&str] = &[".", "+", "?", "^", "$", "{", "}", "(", ")", "|", "[", "]", "\\", "*", "-", "~", ",", "=", " ", "\t", "%", "&"];
+const SELECTORS: &[&str] = &[
+    ".ad", "#banner", "div[class=\"x\"]", ".é", ".ad:has-text(x)", ".ad:style(color: red)", "+js(foo, bar)",
+    ".a > .b", ".ad:remove()", "a[href^=\"http://ads.\"]", ".x:has(.y)", "div:matches-css(color: red)", "", ".ad, .ads",
+    ".ad:upward(2)", "##", ".漢",
+];
+const COS_HOSTS: &[&str] = &[
+    "example.com", "~example.com", "example.*", "~example.*", "müller.de", "~müller.de", "\u{200d}.com",
+    "/regex/", "sub.example.com", "Example.COM", "", "~", ".*", "~.*", "foo.com", "~foo.com", "пример.рф",
+    "a.b.example.co.uk", "~/re/", "x_y.com",
+];
+
+fn c20_domain_opt(r: &mut Rng) -> String {
+    let n = r.range(1, 3);
+    let mut v = vec![];
+    for _ in 0..n {
+        let d = if r.chance(1, 2) { r.pick(IDN) } else { r.pick(gen::DOMAINS) };
+        v.push(if r.chance(1, 3) { format!("~{}", d) } else { d.to_string() });
+    }
+    format!("{}={}", if r.chance(1, 10) { "from" } else { "domain" }, v.join("|"))
+}
+
+fn special_pattern(r: &mut Rng) -> String {
+    let mut s = String::new();
+    if r.chance(1, 3) {
+        s.push_str(r.pick(&["||", "|", "@@", "@@||"]));
+    }
+    let n = r.range(1, 5);
+    for _ in 0..n {
+        if r.chance(2, 3) {
+            s.push_str(r.pick(gen::VOCAB));
+        }
+        if r.chance(2, 3) {
+            s.push_str(r.pick(SPECIALS));
         }
     }
+    if r.chance(1, 8) {
+        s.push('|');
+    }
+    s
+}
+
+fn c20_network(r: &mut Rng) -> String {
+    match r.below(16) {
+        0..=3 => gen::rule(r, true),
+        4 | 5 => special_pattern(r),
+        6 | 7 => {
+            let mut o = gen::options(r, false);
+            o.push(c20_domain_opt(r));
+            if r.chance(1, 3) {
+                o.push((r.pick(&["script", "image", "third-party", "~third-party", "important"])).to_string());
+            }
+            if r.chance(1, 2) {
+                o.reverse();
+            }
+            format!("{}{}${}", if r.chance(1, 6) { "@@" } else { "" }, gen::pattern(r), o.join(","))
+        }
+        8 => format!(
+            "/{}{}/{}",
+            r.pick(gen::VOCAB),
+            r.pick(&["[0-9]+", "\\d{2,}", ".*", "(a|b)", ""]),
+            r.pick(&["", "$match-case", "$image", "$script,match-case"])
+        ),
+        9 => format!(
+            "{}{}",
+            r.pick(&["|ws://", "|http://", "|https://", "|http*://", "|wss://", "|ws://x", "*"]),
+            r.pick(&["", "", "$~websocket", "$websocket", "$image", "$~image", "$third-party", "$~websocket,~image", "$document", "|"])
+        ),
+        10 => format!(
+            "{}{}",
+            r.pick(&["^", "*^", "^*", "|^", "^|", "*", "||^", "^^", "*^*", "||*", "|*", "*|", "||", "|", "$", "^a", "a^"]),
+            r.pick(&["", "", "$image", "$third-party", "$domain=a.com", "$script,domain=~a.com"])
+        ),
+        11 => (r.pick(&[
+            "ads/é", "||müller.de^", "||\u{200d}.com^", "||пример.рф/ads", "é", "||ÉXAMPLE.com^", "ads$tag=é",
+            "||Example.COM/Ads", "|HTTPS://Example.com/", "ADS", "||www.Example.com^", "||x.com/é$image",
+        ]))
+        .to_string(),
+        12 => format!(
+            "{}{}${}",
+            if r.chance(1, 3) { "@@" } else { "" },
+            gen::pattern(r),
+            r.pick(&[
+                "document", "important", "generichide", "ghide", "badfilter", "csp=script-src 'none'", "csp",
+                "redirect=noop.js", "redirect-rule=noop.js", "removeparam=utm", "doc", "document,image",
+                "document,subdocument", "subdocument", "image,subdocument", "image,subdocument,third-party",
+                "object", "ping", "other", "websocket", "object,image", "~object", "~image", "~subdocument",
+                "xhr,font,media,css", "popup", "all", "1p", "3p", "1p,3p", "~third-party,~first-party", "elemhide",
+                "important,document", "tag=t1", "frame,script",
+            ])
+        ),
+        13 => (r.pick(&[
+            "a$b$domain=x.com", "ads$domain=evil$from=a.com", "a$domain=b.com$image", "x$domain=a.com,domain=~b.com",
+            "x$domain=a.com|~b.com", "x$domain=~a.com|~b.com", "x$image,domain=a.com|b.com,third-party",
+            "x$tag=domain=y,domain=a.com", "x$domain=", "x$domain=~", "x$domain=a.com|", "x$domain=|", "x$domain=/re/|a.com",
+            "x$from=a.com", "x$from=a.com,domain=b.com", "x$domain=A.COM", "x$domain=\u{200d}.com", "x$domain=~\u{200d}.com",
+        ]))
+        .to_string(),
+        14 => format!("||{}{}", r.pick(gen::HOSTS), r.pick(&["", "^", "/", "/ads", "/ads/banner.js", "^$third-party", "|", ":8080/x", "/Ads?x=1"])),
+        _ => format!("{}{}", r.pick(&["", "|https://", "|http://"]), gen::segs(r, 1, 3).replace('^', "/").replace('*', "-")),
+    }
+}
+
+fn c20_cosmetic(r: &mut Rng) -> String {
+    let n = r.below(4);
+    let mut hs = vec![];
+    for _ in 0..n {
+        hs.push(r.pick(COS_HOSTS));
+    }
+    format!("{}{}{}", hs.join(","), r.pick(&["##", "##", "##", "#@#", "#@#", "#?#", "#$#"]), r.pick(SELECTORS))
+}
+
+fn c20_line(r: &mut Rng) -> String {
+    match r.below(20) {
+        0..=11 => c20_network(r),
+        12..=17 => c20_cosmetic(r),
+        18 => gen::junk(r),
+        _ => (r.pick(&["! comment", "[Adblock Plus 2.0]", "", "# x", "127.0.0.1 ads.net"])).to_string(),
+    }
+}
+
+// ------------------------------------------------------------------------------- Coq literals
+fn cstr_opt(o: &Option<String>) -> String {
+    copt(o, |s| hxs(s))
+}
+fn cstrs_opt(o: &Option<Vec<String>>) -> String {
+    copt(o, |v| cstrs(v))
+}
+
+fn net_record(f: &NetworkFilter) -> String {
+    let filt = match &f.filter {
+        FilterPart::Empty => "FEmpty".to_string(),
+        FilterPart::Simple(s) => format!("(FSimple {})", hxs(s)),
+        FilterPart::AnyOf(_) => "FAnyOf".to_string(),
+    };
+    format!(
+        "(mkNet {} {} {} {} {} {})",
+        cn(f.mask.bits()),
+        filt,
+        cstr_opt(&f.hostname),
+        cbool(f.opt_domains.is_some()),
+        cbool(f.opt_not_domains.is_some()),
+        cstr_opt(&f.raw_line.as_ref().map(|b| (**b).clone()))
+    )
+}
+
+fn cos_plain(f: &CosmeticFilter) -> Option<String> {
+    if f.selector.is_empty() {
+        None
+    } else {
+        f.plain_css_selector().map(|s| s.to_string())
+    }
+}
+
+fn cos_record(f: &CosmeticFilter) -> String {
+    format!(
+        "(mkCos {} {} {} {} {} {})",
+        cstr_opt(&f.raw_line.as_ref().map(|b| (**b).clone())),
+        cbool(f.mask.contains(CosmeticFilterMask::UNHIDE)),
+        cbool(f.action.is_some()),
+        cbool(f.mask.contains(CosmeticFilterMask::SCRIPT_INJECT)),
+        cn(f.selector.len()),
+        cstr_opt(&cos_plain(f))
+    )
+}
+
+fn type_code(t: &CbType) -> u32 {
+    match t {
+        CbType::Block => 0,
+        CbType::CssDisplayNone => 1,
+        CbType::IgnorePreviousRules => 2,
+        _ => 99,
+    }
+}
+
+fn res_codes(r: &CbRule) -> Option<Vec<u64>> {
+    r.trigger.resource_type.as_ref().map(|s| {
+        let mut v: Vec<u64> = s.iter().map(|t| t.clone() as u64).collect();
+        v.sort();
+        v
+    })
+}
+
+fn out_rule(r: &CbRule) -> String {
+    format!(
+        "(mkOut {} {} {} {} {} {} {} {})",
+        cn(type_code(&r.action.typ)),
+        cstr_opt(&r.action.selector),
+        hxs(&r.trigger.url_filter),
+        cbool(r.trigger.url_filter_is_case_sensitive == Some(true)),
+        cstrs_opt(&r.trigger.if_domain),
+        cstrs_opt(&r.trigger.unless_domain),
+        copt(&res_codes(r), |v| clist(v, |c| cn(c))),
+        clist(&r.trigger.load_type, |l| cn(match l {
+            CbLoadType::FirstParty => 0,
+            CbLoadType::ThirdParty => 1,
+        }))
+    )
+}
+
+const ERRS: &[&str] = &[
+    "NeedsDebugMode", "UnlessAndIfDomainTogetherUnsupported", "NoSupportedNetworkOptions", "NetworkRedirectUnsupported",
+    "NetworkGenerichideUnsupported", "NetworkBadFilterUnsupported", "NetworkCspUnsupported", "NetworkRemoveparamUnsupported",
+    "FullRegexUnsupported", "OptimizedRulesUnsupported", "CosmeticEntitiesUnsupported", "CosmeticActionRulesNotSupported",
+    "ScriptletInjectionsNotSupported", "RuleContainsNonASCII", "FromNotSupported", "ProceduralCosmeticFiltersUnsupported",
+];
+fn err_code(dbg: &str) -> u32 {
+    let name = dbg.split('(').next().unwrap_or("");
+    ERRS.iter().position(|e| *e == name).map(|i| i as u32).unwrap_or(999)
+}
+
+/// Outcome of one conversion on the implementation.
+#[derive(Clone)]
+enum Conv {
+    Rules(Vec<CbRule>),
+    Err(String),
+    Panic(String),
+}
+fn conv_lit(c: &Conv) -> String {
+    match c {
+        Conv::Rules(v) => format!("(Ok (inl {}))", clist(v, |r| out_rule(r))),
+        Conv::Err(e) => format!("(Ok (inr {}))", cn(err_code(e))),
+        Conv::Panic(_) => "(Panic \"\")".to_string(),
+    }
+}
+fn conv_json(c: &Conv) -> Value {
+    match c {
+        Conv::Rules(v) => json!({"rules": v}),
+        Conv::Err(e) => json!({"err": e}),
+        Conv::Panic(p) => json!({"panic": p}),
+    }
+}
+
+fn convert_net(f: &NetworkFilter) -> Conv {
+    let g = f.clone();
+    match catch(move || CbRuleEquivalent::try_from(g).map(|e| e.into_iter().collect::<Vec<_>>()).map_err(|e| format!("{:?}", e))) {
+        Ok(Ok(v)) => Conv::Rules(v),
+        Ok(Err(e)) => Conv::Err(e),
+        Err(p) => Conv::Panic(p),
+    }
+}
+fn convert_cos(f: &CosmeticFilter) -> Conv {
+    let g = f.clone();
+    match catch(move || CbRule::try_from(g).map_err(|e| format!("{:?}", e))) {
+        Ok(Ok(v)) => Conv::Rules(vec![v]),
+        Ok(Err(e)) => Conv::Err(e),
+        Err(p) => Conv::Panic(p),
+    }
+}
+
+// oracle tables ----------------------------------------------------------------------------
+fn norm_answer(d: &str) -> Option<String> {
+    let l = d.to_lowercase();
+    if l.is_ascii() {
+        Some(l)
+    } else {
+        idna::domain_to_ascii(&l).ok()
+    }
+}
+/// Every string the model may ask the `norm` oracle about for this raw line (a superset).
+fn norm_table(line: &str, t: &mut Vec<(String, Option<String>)>) {
+    let mut from = 0;
+    while let Some(i) = line[from..].find("domain=") {
+        let start = from + i + "domain=".len();
+        let rest = &line[start..];
+        let seg = &rest[..rest.find(',').unwrap_or(rest.len())];
+        for d in seg.split('|') {
+            for c in [d, d.strip_prefix('~').unwrap_or(d)] {
+                if !c.is_ascii() && !t.iter().any(|(k, _)| k == c) {
+                    t.push((c.to_string(), norm_answer(c)));
+                }
+            }
+        }
+        from = start;
+    }
+}
+fn idna_table(line: &str, t: &mut Vec<(String, Option<String>)>) {
+    let pre = &line[..line.find('#').unwrap_or(line.len())];
+    for p in pre.split(',') {
+        let a = p.strip_prefix('~').unwrap_or(p);
+        for c in [p, a, p.strip_suffix(".*").unwrap_or(p), a.strip_suffix(".*").unwrap_or(a)] {
+            if !t.iter().any(|(k, _)| k == c) {
+                t.push((c.to_string(), idna::domain_to_ascii(c).ok()));
+            }
+        }
+    }
+}
+fn table_lit(t: &[(String, Option<String>)]) -> String {
+    format!("(table {})", clist(t, |(k, v)| format!("({}, {})", hxs(k), cstr_opt(v))))
+}
+
+// ------------------------------------------------------------------------------- oracle pieces
+/// Conservative recogniser of the regex subset Safari's URLFilterParser accepts (same automaton
+/// as `safari_ok` in C20_Model.v, written independently of the converter).
+fn safari_ok(t: &str) -> bool {
+    #[derive(Clone, Copy, PartialEq)]
+    enum S {
+        Top(bool, bool, bool),
+        Esc(bool),
+        ClsOpen(bool),
+        ClsNeg(bool),
+        ClsBody(bool),
+        ClsEsc(bool),
+        End,
+        Fail,
+    }
+    const META: &str = ".*+?^${}()|[]\\";
+    let b: Vec<char> = t.chars().collect();
+    if b.is_empty() {
+        return false;
+    }
+    let body = if b[0] == '^' { &b[1..] } else { &b[..] };
+    let mut s = S::Top(false, false, false);
+    for &c in body {
+        let meta = META.contains(c);
+        s = match s {
+            S::Top(g, gi, q) => match c {
+                '\\' => S::Esc(g),
+                '.' => S::Top(g, true, true),
+                '[' => S::ClsOpen(g),
+                '(' => if g { S::Fail } else { S::Top(true, false, false) },
+                ')' => if g && gi { S::Top(false, false, true) } else { S::Fail },
+                '*' | '+' | '?' => if q { S::Top(g, gi, false) } else { S::Fail },
+                '$' => if g { S::Fail } else { S::End },
+                _ if meta => S::Fail,
+                _ => S::Top(g, true, true),
+            },
+            S::Esc(g) => if meta { S::Top(g, true, true) } else { S::Fail },
+            S::ClsOpen(g) => match c {
+                '^' => S::ClsNeg(g),
+                '\\' => S::ClsEsc(g),
+                _ if meta => S::Fail,
+                _ => S::ClsBody(g),
+            },
+            S::ClsNeg(g) | S::ClsBody(g) => match c {
+                ']' => if matches!(s, S::ClsBody(_)) { S::Top(g, true, true) } else { S::Fail },
+                '\\' => S::ClsEsc(g),
+                _ if meta => S::Fail,
+                _ => S::ClsBody(g),
+            },
+            S::ClsEsc(g) => if meta { S::ClsBody(g) } else { S::Fail },
+            S::End | S::Fail => S::Fail,
+        };
+    }
+    matches!(s, S::Top(false, _, _) | S::End)
+}
+
+fn rule_strings(r: &CbRule) -> Vec<&String> {
+    let mut v = vec![&r.trigger.url_filter];
+    v.extend(r.action.selector.iter());
+    for l in [&r.trigger.if_domain, &r.trigger.unless_domain, &r.trigger.if_top_url, &r.trigger.unless_top_url] {
+        v.extend(l.iter().flatten());
+    }
+    v
+}
+
+fn has(m: NetworkFilterMask, f: NetworkFilterMask) -> bool {
+    m.contains(f)
+}
+/// Known-finding class: the rule has lost its scheme information (`|ws://$~websocket`).
+fn lost_scheme_class(f: &NetworkFilter) -> bool {
+    let needs = match (&f.filter, &f.hostname) {
+        (FilterPart::Simple(_), None) => !has(f.mask, NetworkFilterMask::IS_LEFT_ANCHOR),
+        (FilterPart::Empty, None) => true,
+        _ => false,
+    };
+    needs
+        && !has(f.mask, NetworkFilterMask::FROM_HTTP)
+        && !has(f.mask, NetworkFilterMask::FROM_HTTPS)
+        && !has(f.mask, NetworkFilterMask::FROM_WEBSOCKET)
+}
+/// Known-finding class: the pattern is nothing but a trailing separator, no anchors, no hostname.
+fn empty_filter_class(f: &NetworkFilter) -> bool {
+    match (&f.filter, &f.hostname) {
+        (FilterPart::Simple(p), None) => {
+            p == "^"
+                && !has(f.mask, NetworkFilterMask::IS_LEFT_ANCHOR)
+                && !has(f.mask, NetworkFilterMask::IS_RIGHT_ANCHOR)
+                && has(f.mask, NetworkFilterMask::FROM_HTTP | NetworkFilterMask::FROM_HTTPS)
+        }
+        _ => false,
+    }
+}
+
+/// "plain" shapes for the inclusion check: no wildcard, no separator except one trailing `^`.
+fn plain_shape(f: &NetworkFilter) -> bool {
+    if has(f.mask, NetworkFilterMask::IS_COMPLETE_REGEX) || has(f.mask, NetworkFilterMask::IS_HOSTNAME_REGEX) {
+        return false;
+    }
+    match &f.filter {
+        FilterPart::Empty => true,
+        FilterPart::Simple(p) => {
+            let q = p.strip_suffix('^').unwrap_or(p);
+            !q.contains('*') && !q.contains('^')
+        }
+        FilterPart::AnyOf(_) => false,
+    }
+}
+
+struct Parsed {
+    line: String,
+    net: Option<NetworkFilter>,
+    cos: Option<CosmeticFilter>,
+    conv: Option<Conv>,
+}
+fn parse_line(line: &str) -> Parsed {
+    let l = line.to_string();
+    let r = catch(move || parse_filter(&l, true, ParseOptions::default()));
+    let mut p = Parsed { line: line.trim().to_string(), net: None, cos: None, conv: None };
+    match r {
+        Ok(Ok(ParsedFilter::Network(f))) => {
+            p.conv = Some(convert_net(&f));
+            p.net = Some(f)
+        }
+        Ok(Ok(ParsedFilter::Cosmetic(f))) => {
+            p.conv = Some(convert_cos(&f));
+            p.cos = Some(f)
+        }
+        _ => {}
+    }
+    p
+}
+
+type IntoResult = Result<Result<(Vec<CbRule>, Vec<String>), ()>, String>;
+fn run_list(lines: &[String], debug: bool) -> IntoResult {
+    let l2 = lines.to_vec();
+    catch(move || {
+        let mut fs = FilterSet::new(debug);
+        fs.add_filters(&l2, ParseOptions::default());
+        fs.into_content_blocking()
+    })
+}
+
+const REQ_TYPES: &[&str] = &["script", "image", "document", "xhr", "subdocument", "other", "websocket", "stylesheet"];
+fn rule_matches(f: &NetworkFilter, url: &str) -> bool {
+    let host = url.split("://").nth(1).and_then(|r| r.split(|c| c == '/' || c == ':' || c == '?').next()).unwrap_or("x.test");
+    for src in [format!("https://{}/page", host), "https://third.test/page".to_string(), "https://a.com/".to_string()] {
+        for ty in REQ_TYPES {
+            if let Ok(req) = Request::new(url, &src, ty) {
+                let mut rm = RegexManager::default();
+                if f.matches(&req, &mut rm) {
+                    return true;
+                }
+            }
+        }
+    }
+    false
+}
+fn cb_regex(r: &CbRule) -> Result<regex::Regex, regex::Error> {
+    regex::RegexBuilder::new(&r.trigger.url_filter)
+        .case_insensitive(r.trigger.url_filter_is_case_sensitive != Some(true))
+        .build()
+}
+
+/// The oracle on one list. Returns (class, what) for every failure.
+fn oracle_list(lines: &[String], parsed: &[&Parsed], res: &IntoResult, singles: &mut HashMap<String, Option<bool>>) -> Vec<(Option<&'static str>, String)> {
+    let mut fails = vec![];
+    let any_lost = parsed.iter().any(|p| p.net.as_ref().map_or(false, lost_scheme_class));
+    let (rules, used) = match res {
+        Err(p) => {
+            fails.push((if any_lost { Some("C20_scheme_bits_lost_unreachable") } else { None }, format!("into_content_blocking panicked: {}", p)));
+            return fails;
+        }
+        Ok(Err(())) => {
+            fails.push((None, "into_content_blocking returned Err(()) on a debug FilterSet".to_string()));
+            return fails;
+        }
+        Ok(Ok(x)) => x,
+    };
+    let any_empty = parsed.iter().any(|p| p.net.as_ref().map_or(false, empty_filter_class));
+    let mut seen_ignore = false;
+    for (i, r) in rules.iter().enumerate() {
+        for s in rule_strings(r) {
+            if !s.is_ascii() {
+                fails.push((None, format!("rule {} carries the non-ASCII string {:?}", i, s)));
+            }
+        }
+        if (r.trigger.if_domain.is_some() && r.trigger.unless_domain.is_some()) || (r.trigger.if_top_url.is_some() && r.trigger.unless_top_url.is_some()) {
+            fails.push((None, format!("rule {} has both an if- and an unless- list", i)));
+        }
+        let ign = matches!(r.action.typ, CbType::IgnorePreviousRules);
+        if ign {
+            seen_ignore = true
+        } else if seen_ignore {
+            fails.push((None, format!("rule {} ({:?}) comes after an ignore-previous-rules entry", i, r.action.typ)));
+        }
+        let f = &r.trigger.url_filter;
+        if !safari_ok(f) {
+            let known = f.is_empty() && any_empty;
+            fails.push((if known { Some("C20_empty_url_filter") } else { None }, format!("url-filter {:?} of rule {} is outside the Safari regex subset", f, i)));
+        } else if let Err(e) = cb_regex(r) {
+            fails.push((None, format!("url-filter {:?} does not compile: {}", f, e)));
+        }
+    }
+    // filters_used exactness: which lines produce output when converted alone
+    let mut expect_net = vec![];
+    let mut expect_cos = vec![];
+    let mut unknown = false;
+    for p in parsed {
+        if p.net.is_none() && p.cos.is_none() {
+            continue;
+        }
+        let e = singles.entry(p.line.clone()).or_insert_with(|| match run_list(&[p.line.clone()], true) {
+            Ok(Ok((r, u))) => Some(!r.is_empty() && !u.is_empty()),
+            _ => None,
+        });
+        match e {
+            Some(true) => {
+                if p.net.is_some() {
+                    expect_net.push(p.line.clone())
+                } else {
+                    expect_cos.push(p.line.clone())
+                }
+            }
+            Some(false) => {}
+            None => unknown = true,
+        }
+    }
+    if !unknown {
+        expect_net.extend(expect_cos);
+        if &expect_net != used {
+            fails.push((None, format!("filters_used = {:?} but the lines producing output alone are {:?}", used, expect_net)));
+        }
+    }
+    // every used line is an input line
+    for u in used {
+        if !lines.iter().any(|l| l.trim() == u) {
+            fails.push((None, format!("filters_used entry {:?} is not an input line", u)));
+        }
+    }
+    fails
+}
+
+/// Inclusion for plain patterns: returns the first URL that the rule matches and the emitted filter does not.
+fn inclusion_failure(f: &NetworkFilter, conv: &Conv, urls: &[String]) -> (u64, u64, Option<String>) {
+    let Conv::Rules(rules) = conv else { return (0, 0, None) };
+    let mut n = 0;
+    let mut hit = 0;
+    for u in urls {
+        if !u.is_ascii() {
+            continue;
+        }
+        n += 1;
+        if !rule_matches(f, u) {
+            continue;
+        }
+        hit += 1;
+        for r in rules {
+            match cb_regex(r) {
+                Ok(re) => {
+                    if !re.is_match(u) {
+                        return (n, hit, Some(u.clone()));
+                    }
+                }
+                Err(_) => {}
+            }
+        }
+    }
+    (n, hit, None)
+}
+
+fn userinfo_url(u: &str) -> bool {
+    u.split("://").nth(1).map_or(false, |r| r.split('/').next().unwrap_or("").contains('@'))
+}
+
+fn gen_urls(r: &mut Rng, line: &str) -> Vec<String> {
+    let mut v = vec![];
+    for _ in 0..3 {
+        v.push(gen::url_for(r, line));
+    }
+    for _ in 0..2 {
+        v.push(gen::url(r));
+    }
+    // case variation: the request is lowercased by the engine, Safari matches case-insensitively
+    if let Some(u) = v.first().cloned() {
+        v.push(u.to_uppercase().replacen("HTTPS://", "https://", 1).replacen("HTTP://", "http://", 1));
+    }
+    v
+}
+
+fn replay(a: &Args, p: &std::path::Path) {
+    let v: Value = serde_json::from_str(&std::fs::read_to_string(p).unwrap()).unwrap();
+    let rp = &v["replay"];
+    let lines: Vec<String> = rp["lines"].as_array().map(|x| x.iter().map(|s| s.as_str().unwrap_or("").to_string()).collect()).unwrap_or_default();
+    let mut bad = false;
+    if let Some(url) = rp["url"].as_str() {
+        let p = parse_line(&lines[0]);
+        if let (Some(f), Some(c)) = (&p.net, &p.conv) {
+            let (_, hit, fail) = inclusion_failure(f, c, &[url.to_string()]);
+            println!("line={:?} url={:?} rule matches={} emitted={} uncovered={:?}", lines[0], url, hit > 0, conv_json(c), fail);
+            bad = fail.is_some();
+        }
+    } else {
+        let parsed: Vec<Parsed> = lines.iter().map(|l| parse_line(l)).collect();
+        let refs: Vec<&Parsed> = parsed.iter().collect();
+        let res = run_list(&lines, true);
+        match &res {
+            Ok(Ok((r, u))) => println!("rules={} used={:?}", serde_json::to_string(r).unwrap(), u),
+            Ok(Err(())) => println!("Err(())"),
+            Err(p) => println!("PANIC: {}", p),
+        }
+        let mut singles = HashMap::new();
+        for (c, w) in oracle_list(&lines, &refs, &res, &mut singles) {
+            println!("FAIL class={:?}: {}", c, w);
+            bad = true;
+        }
+    }
+    let _ = a;
+    if bad {
+        println!("VIOLATION property=C20 replay={}", p.display());
+        std::process::exit(1);
+    }
+}
+
+fn main() {
+    let a = args();
+    if let Some(p) = &a.replay {
+        replay(&a, p);
+        return;
+    }
+    let mut r = Rng::new(a.seed);
+    let mut cs = Cases::new(&a.out, "Generated C20_Model");
+    cs.shard = 150;
+    let mut sm = Summary::default();
+    sm.rule = "lists of 1-8 lines (network rules from the shared grammar plus C20 shapes: regex metacharacters, domain=/from= lists mixing ~ / IDN / U+200D / Kelvin sign, /re/ rules, scheme-only rules, separator-only patterns, every option kind, $ inside the pattern; cosmetic rules with hostname/entity/negated/IDN/regex locations, ##, #@#, procedural, :style, +js; junk and comments). One case per distinct parsed line (conversion result field by field / error variant / panic) and one per list (rules in order + filters_used). non-trivial = the conversion emitted at least one rule (per line) / the list emitted rules from at least two lines or both block and ignore-previous entries (per list)".into();
+    let mut seen: HashSet<String> = HashSet::new();
+    let mut singles: HashMap<String, Option<bool>> = HashMap::new();
+    let n_lists = 450 * a.scale;
+    let (mut incl_urls, mut incl_hits, mut incl_rules) = (0u64, 0u64, 0u64);
+
+    // fixed corpus first: the findings' inputs and the old F19 input
+    let mut corpus: Vec<Vec<String>> = vec![
+        vec!["ads$domain=\u{200d}.com".into()],
+        vec!["|ws://$~websocket".into()],
+        vec!["^".into()],
+        vec!["@@||x.com^$generichide".into(), "##.ad".into(), "example.com##.ad".into(), "example.com#@#.ad".into(), "@@||good.com^".into(), "||ads.net^".into()],
+        vec!["||example.com^$document".into(), "ads$important".into(), "@@ads$image".into(), "/ads[0-9]/".into()],
+    ];
+    corpus.reverse();
+
+    for li in 0..n_lists + corpus.len() {
+        let lines: Vec<String> = if let Some(c) = corpus.pop() {
+            c
+        } else {
+            let n = r.range(1, 8);
+            (0..n).map(|_| c20_line(&mut r)).collect()
+        };
+        let _ = li;
+        let parsed: Vec<Parsed> = lines.iter().map(|l| parse_line(l)).collect();
+        // ---------------- per-line cases
+        for p in &parsed {
+            let Some(conv) = &p.conv else {
+                cs.stat("line_not_parsed");
+                continue;
+            };
+            if !seen.insert(p.line.clone()) {
+                continue;
+            }
+            let mut t = vec![];
+            let (expr, kind) = if let Some(f) = &p.net {
+                norm_table(&p.line, &mut t);
+                (format!("conv_out_eqb (conv_out (convert_network {} {})) {}", table_lit(&t), net_record(f), conv_lit(conv)), "network")
+            } else {
+                let f = p.cos.as_ref().unwrap();
+                idna_table(&p.line, &mut t);
+                (format!("conv_out_eqb (conv_out (one (convert_cosmetic {} {}))) {}", table_lit(&t), cos_record(f), conv_lit(conv)), "cosmetic")
+            };
+            match conv {
+                Conv::Rules(v) => cs.stat(&format!("{}_ok_{}", kind, v.len())),
+                Conv::Err(e) => cs.stat(&format!("{}_err_{}", kind, e.split('(').next().unwrap_or(""))),
+                Conv::Panic(_) => cs.stat(&format!("{}_panic", kind)),
+            }
+            let desc = json!({"kind": kind, "line": p.line, "impl": conv_json(conv),
+                "mask": p.net.as_ref().map(|f| f.mask.bits()), "hostname": p.net.as_ref().and_then(|f| f.hostname.clone()),
+                "filter": p.net.as_ref().and_then(|f| f.filter.string_view())});
+            cs.case(expr, desc, matches!(conv, Conv::Rules(_)));
+            // parser invariants the theorems assume (checked on every parsed rule)
+            if let Some(f) = &p.net {
+                sm.oracle_evaluations += 1;
+                if let Some(h) = &f.hostname {
+                    if h.contains('*') || h.contains('/') || h.contains('^') || !h.is_ascii() {
+                        sm.failure(None, &format!("parser invariant: hostname {:?} contains a wildcard/separator/non-ASCII", h), json!({"lines": [p.line]}));
+                    }
+                }
+                if (f.opt_domains.is_some() || f.opt_not_domains.is_some()) && !p.line.contains('$') {
+                    sm.failure(None, "parser invariant: domain option without '$' in the raw line", json!({"lines": [p.line]}));
+                }
+                if f.raw_line.as_ref().map(|b| b.as_str()) != Some(p.line.as_str()) {
+                    sm.failure(None, "parser invariant: raw_line is not the trimmed input line", json!({"lines": [p.line]}));
+                }
+                // inclusion for plain patterns
+                if plain_shape(f) && matches!(conv, Conv::Rules(_)) {
+                    let urls = gen_urls(&mut r, &p.line);
+                    let (n, hit, fail) = inclusion_failure(f, conv, &urls);
+                    incl_urls += n;
+                    incl_hits += hit;
+                    incl_rules += 1;
+                    sm.oracle_evaluations += n;
+                    if let Some(u) = fail {
+                        let class = if userinfo_url(&u) { Some("C20_userinfo_url") } else { None };
+                        sm.failure(class, &format!("rule {:?} matches {:?} but the emitted url-filter does not", p.line, u), json!({"lines": [p.line], "url": u}));
+                    }
+                }
+            }
+        }
+        // ---------------- list case
+        let res = run_list(&lines, true);
+        sm.oracle_evaluations += 1;
+        let refs: Vec<&Parsed> = parsed.iter().collect();
+        for (class, what) in oracle_list(&lines, &refs, &res, &mut singles) {
+            sm.failure(class, &what, json!({"lines": lines}));
+        }
+        let mut tn = vec![];
+        let mut ti = vec![];
+        let mut nets = vec![];
+        let mut coss = vec![];
+        for p in &parsed {
+            if let Some(f) = &p.net {
+                norm_table(&p.line, &mut tn);
+                nets.push(net_record(f));
+            }
+            if let Some(f) = &p.cos {
+                idna_table(&p.line, &mut ti);
+                coss.push(cos_record(f));
+            }
+        }
+        let (lit, nontrivial) = match &res {
+            Err(_) => {
+                cs.stat("list_panic");
+                ("(Panic \"\")".to_string(), false)
+            }
+            Ok(Err(())) => ("(Ok None)".to_string(), false),
+            Ok(Ok((rules, used))) => {
+                let ign = rules.iter().filter(|x| matches!(x.action.typ, CbType::IgnorePreviousRules)).count();
+                cs.stat(if rules.is_empty() { "list_no_output" } else { "list_output" });
+                (
+                    format!("(Ok (Some ({}, {})))", clist(rules, |x| out_rule(x)), cstrs(used)),
+                    used.len() >= 2 || (ign >= 2 && ign < rules.len()),
+                )
+            }
+        };
+        let expr = format!(
+            "into_out_eqb (into_out (into_content_blocking {} {} true [{}] [{}])) {}",
+            table_lit(&tn), table_lit(&ti), nets.join("; "), coss.join("; "), lit
+        );
+        let desc = json!({"kind": "list", "lines": lines, "impl": match &res {
+            Ok(Ok((rules, used))) => json!({"rules": rules, "filters_used": used}),
+            Ok(Err(())) => json!("Err(())"),
+            Err(p) => json!({"panic": p}),
+        }});
+        cs.case(expr, desc, nontrivial);
+        // a non-debug set must be refused, never converted
+        if li % 50 == 0 {
+            sm.oracle_evaluations += 1;
+            match run_list(&lines, false) {
+                Ok(Err(())) => {}
+                other => sm.failure(None, &format!("non-debug FilterSet: expected Err(()), got {}", match other { Err(p) => format!("panic {}", p), _ => "Ok".into() }), json!({"lines": lines, "debug": false})),
+            }
+        }
+    }
+    sm.extra.insert("inclusion_plain_rules".into(), json!(incl_rules));
+    sm.extra.insert("inclusion_urls".into(), json!(incl_urls));
+    sm.extra.insert("inclusion_urls_matched_by_rule".into(), json!(incl_hits));
+    sm.extra.insert("distinct_lines".into(), json!(seen.len()));
+    cs.finish();
+    sm.write(&a.out, &cs);
 }
